@@ -224,19 +224,20 @@ def run(rep, tier, seed):
                           "outside braces and outside metadata values, components included (C17_padded_comment_events(_fm), "
                           "C17_padded_comment_recipe(_fm): same relation and hypotheses as the trailing edit; a metadata VALUE, a blank "
                           "run ending in a TAB and the glued spelling inside braces are refuted places: C17_padded_meta_value_refuted, "
-                          "_tab_refuted, _brace_refuted, none of them judged by the monitor); TEXT MODE: CRLF conversion is a theorem about the "
-                          "recipe with no hypothesis about modes (C17_crlf_recipe_text_mode: same outcome, validity, tables, sections, "
-                          "steps and metadata map, paragraph texts equal after deleting U+000D - a component that wraps over a line end "
-                          "is copied with its line end as written; C17_crlf_text_mode_normal_form_needed), from the event relation "
-                          "extended to the source of each component (C17_component_source_ksim: the two spans cut the texts of "
-                          "ksim-related token runs out of the two sources), the analysis pass blind up to any congruence on paragraph "
-                          "text with mode switches anywhere (C17_analysis_text_blind) and the comment stripping of a copied slice "
-                          "equal to dropping the comment tokens it has in the document (C17_strip_token_run); the block comment after a word "
-                          "or number token likewise (C17_mid_comment_recipe_text_mode(_fm): the consumed runs' non-comment tokens are "
-                          "related, the inserted comment is removed by the copy); for the other edits "
-                          "(extra line, trailing, padded) text mode stays the hypothesis src_no_text_mode and is "
-                          "observed on the implementation: the monitor compares complete parse results of every source read in text "
-                          "mode as well")
+                          "_tab_refuted, _brace_refuted, none of them judged by the monitor); TEXT MODE: every edit is a theorem about the recipe "
+                          "WITHOUT the hypothesis src_no_text_mode (C17_crlf_recipe_text_mode, C17_extra_line_recipe_text_mode(_fm), "
+                          "C17_mid_comment_recipe_text_mode(_fm), C17_trailing_comment_recipe_text_mode(_fm), "
+                          "C17_padded_comment_recipe_text_mode(_fm); code after 200c896: text_raw = false): same outcome, validity, tables, "
+                          "sections, steps and metadata map; paragraph texts equal after deleting U+000D for CRLF, the extra line and the "
+                          "comment after a word, and equal under rnormN - runs of U+0020, TAB, LF and CR squeezed to one U+0020, none at "
+                          "either end - for the trailing and padded edits (a component that wraps over a line end is copied with its line "
+                          "end, and a trailing edit puts U+0020s in front of it: C17_trailing_text_mode_rnorm_too_fine shows that rnorm is "
+                          "too fine there); from the event relations extended to the SOURCE of each component event (the two spans cut "
+                          "related token runs out of the two sources: C17_component_source_ksim, C17_trailing_consumed_runs, "
+                          "C17_padded_consumed_runs), the analysis pass blind up to a congruence on paragraph text with mode switches "
+                          "anywhere (C17_analysis_text_blind, C17_analysis_wblind_text) and the comment stripping of a copied slice equal to "
+                          "dropping the comment tokens it has in the document (C17_strip_token_run); the monitor reads every source in "
+                          "text mode as well")
     rep.coverage.update({
         "evaluations": len(pairs) + ncases, "distinct_nontrivial": len(nontrivial),
         "rule": "%d generated and %d hand-made well-formed recipes (canonical: no extensions/empty converter; extended: all "
